@@ -31,6 +31,18 @@ PAIRS = [
 ]
 
 
+PAIRS_NS = [
+    ("NsReader::read_event_impl",
+     "src/reader/ns_reader.rs :: impl<R> NsReader<R> :: fn read_event_impl",
+     "src/reader/async_tokio.rs :: impl<R: AsyncBufRead + Unpin> NsReader<R> :: fn read_event_into_async",
+     ["src/reader/mod.rs"]),
+    ("NsReader::read_to_end_into",
+     "src/reader/ns_reader.rs :: impl<R: BufRead> NsReader<R> :: fn read_to_end_into",
+     "src/reader/async_tokio.rs :: impl<R: AsyncBufRead + Unpin> NsReader<R> :: fn read_to_end_into_async",
+     ["src/reader/mod.rs"]),
+]
+
+
 def _erase(toks, body_only):
     if body_only:
         # compare function bodies only (signatures differ by design: names, async, lifetimes)
@@ -62,7 +74,8 @@ def _erase(toks, body_only):
         i += 1
     k = [x.key() for x in out]
     # call-site names of the async variants
-    ren = {"read_until_close_async": "read_until_close", "read_event_into_async": "read_event_impl"}
+    ren = {"read_until_close_async": "read_until_close", "read_event_into_async": "read_event_impl",
+           "read_to_end_into_async": "read_to_end_into"}
     k = [(a, ren.get(b, b)) for (a, b) in k]
     # TokioAdapter(&mut self.reader) -> self.reader
     txt = " ".join(b for (a, b) in k)
@@ -70,11 +83,11 @@ def _erase(toks, body_only):
     return txt
 
 
-def check(repo_root):
+def check(repo_root, pairs=None):
     """-> list of (name, ok, detail)"""
     repo = Repo(repo_root, ["async-tokio"])
     res = []
-    for (name, a_sync, a_async, mfiles) in PAIRS:
+    for (name, a_sync, a_async, mfiles) in (pairs or PAIRS):
         try:
             ls = repo.locate(a_sync, mfiles)
             la = repo.locate(a_async, mfiles)
